@@ -33,6 +33,9 @@ def make_value(kind, v):
     import pandas as pd
 
     if kind.startswith('json'):
+        falsy = {1: 0, 2: '', 3: [], 4: {}, 5: False, 6: 0.0}
+        if v in falsy and kind != 'json':
+            return falsy[v]   # falsy, but not None: storable also when allow_nones=False
         return {'id': v, 'text': 'é🙂' * v, 'nested': [v, None, {'a': 1.5, 'b': [True, False]}], 'big': 2 ** 53 + v}
     if kind == 'numpy':
         return np.arange(v + 2) * 1.5
@@ -43,7 +46,7 @@ def same(kind, a, b):
     import numpy as np
 
     if kind.startswith('json'):
-        return a == b and json.dumps(a, sort_keys=True) == json.dumps(b, sort_keys=True)
+        return type(a) is type(b) and a == b and json.dumps(a, sort_keys=True) == json.dumps(b, sort_keys=True)
     if kind == 'numpy':
         return isinstance(a, np.ndarray) and a.dtype == b.dtype and a.shape == b.shape and bool((a == b).all())
     return a.equals(b) and list(a.dtypes) == list(b.dtypes)
@@ -58,7 +61,8 @@ def replay(job):
     root = scratch(f'c14-{os.getpid()}') / f'b{idx}'
     bad = []
     try:
-        cls = {'json': tc.JsonCache, 'json-nonone': lambda d: tc.JsonCache(d, allow_nones=False), 'numpy': tc.NumpyArrayCache,
+        cls = {'json': tc.JsonCache, 'json-nonone': lambda d: tc.JsonCache(d, allow_nones=False), 'json-falsy': tc.JsonCache,
+               'numpy': tc.NumpyArrayCache,
                'df': tc.DataFrameCache}[kind]
         cache = cls(root)
         keys = rng.sample(KEYPOOL, 2)
@@ -178,7 +182,7 @@ def run(ctx):
         account(ctx, res, f'CacheSeq keycheck={keycheck} edge export MaxSteps={steps}')
         graphs[keycheck] = Graph(res.by_tag('E'), [e['st'] for e in res.by_tag('I')], drop=('steps', 'last'))
     jobs = []
-    for kind in ('json', 'json-nonone', 'numpy', 'df'):
+    for kind in ('json', 'json-nonone', 'json-falsy', 'numpy', 'df'):
         g = graphs[kind.startswith('json')]
         cover, ncov = g.cover(maxlen=10, rng=ctx.rng, limit=150 if quick else None)
         walks = [g.walk(ctx.rng, 12) for _ in range(60 if quick else 600)]
